@@ -7,7 +7,9 @@ source; the `spec` table comes from spec/tables.py.  Per (logic, operator)
 one query ``exists tuple: impl(op)(tuple) != spec(op)(tuple)``; `sat` is a
 difference, enumerated completely (all-sat) so that the finding is identified
 by the exact tuples.  Further obligations: definitional identities on `impl`,
-modal logic == its base logic, value and designated sets.
+modal logic == its base logic, value and designated sets, and the published
+`Model.truth_table(op)` (both orientations, alternating call order) == the
+truth function.
 """
 from __future__ import annotations
 
@@ -200,6 +202,46 @@ def run(ctx):
                 rep.harness_error(f'z3 unknown on {name} modal-base {opname}')
             else:
                 discharged += 1
+    # the published tables: Model.truth_table(op) in both orientations, asked in
+    # alternating order, must be the function the truth function computes
+    from pytableaux.lang import Operator
+    for name, S in sems.items():
+        Model = S.logic.Model
+        for opname in spec.OPERATORS:
+            op = Operator[opname]
+            arity = op.arity
+            args = (a, b)[:arity]
+            calls = [('default', {}), ('reverse', dict(reverse=True)), ('default-again', {})]
+            if hash(name + opname) % 2:
+                calls = [calls[1], calls[0], calls[1]]
+            for label, kw in calls:
+                obligations += 1
+                try:
+                    tt = Model.truth_table(op, **kw)
+                    mapping = {tuple(S.idx[x.name] for x in k): S.idx[v.name] for k, v in tt.mapping.items()}
+                    columns = {tuple(S.idx[x.name] for x in k): S.idx[v.name]
+                               for k, v in zip(tt.inputs, tt.outputs)}
+                except Exception as e:  # noqa: BLE001
+                    rep.violation(f'C07|{name}|truth_table:{opname}|{label}',
+                                  f'{name} truth_table({opname}, {kw}) raised {type(e).__name__}: {e}',
+                                  dict(kind='truth_table', logic=name, operator=opname, reverse=bool(kw)))
+                    continue
+                if len(mapping) != S.n ** arity or columns != mapping:
+                    rep.violation(f'C07|{name}|truth_table:{opname}|{label}',
+                                  f'{name} truth_table({opname}, {kw}): inputs/outputs columns and mapping differ '
+                                  'or are incomplete',
+                                  dict(kind='truth_table', logic=name, operator=opname, reverse=bool(kw)))
+                    continue
+                tuples, last = diff_query(S, arity, ite_table(mapping, args), S.tf('impl', opname, *args))
+                if tuples:
+                    tnames = [''.join(S.names[i] for i in t) for t in sorted(tuples)]
+                    rep.violation(f'C07|{name}|truth_table:{opname}|{label}',
+                                  f'{name} truth_table({opname}, {kw}) differs from the truth function at {tnames}',
+                                  dict(kind='truth_table', logic=name, operator=opname, reverse=bool(kw)))
+                elif last == z3.unknown:
+                    rep.harness_error(f'z3 unknown on {name} truth_table {opname}')
+                else:
+                    discharged += 1
     # vacuity / sensitivity witness: a perturbed table must be caught
     S = sems.get('CPL')
     witnesses = 0
@@ -278,6 +320,20 @@ def replay(data):
             if lhs.name != rhs.name:
                 bad.append((t, lhs.name, rhs.name))
         return bool(bad), f'{data["logic"]} {data["identity"]}: {bad}'
+    if kind == 'truth_table':
+        from pytableaux.lang import Operator
+        op = Operator[data['operator']]
+        bad = []
+        for kw in ({}, dict(reverse=True), {}, dict(reverse=True)):
+            tt = logic.Model.truth_table(op, **kw)
+            for k, v in tt.mapping.items():
+                want = getattr(tf, op.name)(*k)
+                if v.name != want.name:
+                    bad.append((kw, [x.name for x in k], v.name, want.name))
+            for k, v in zip(tt.inputs, tt.outputs):
+                if tt.mapping[k].name != v.name:
+                    bad.append((kw, 'columns', [x.name for x in k], v.name))
+        return bool(bad), f'{data["logic"]} truth_table({data["operator"]}): {bad[:3]}'
     if kind == 'modalbase':
         base = registry(data['base'])
         bad = []
